@@ -808,10 +808,12 @@ pub fn run(sb: &Sandbox, w: &World) -> Result<History, TraceError> {
     }
     cmd.current_dir(&cwd_abs);
     cmd.stdin(fin).stdout(fout).stderr(ferr);
+    let umask = w.umask.unwrap_or(0o022);
     unsafe {
-        cmd.pre_exec(|| {
+        cmd.pre_exec(move || {
             // no ASLR, bounded address space, and be traced by the parent *thread*
             libc::personality(0x0040000);
+            libc::umask(umask as libc::mode_t);
             let lim = libc::rlimit {
                 rlim_cur: 6 << 30,
                 rlim_max: 6 << 30,
